@@ -398,8 +398,8 @@ def rule_f(prog, rep):
     rep.floor('C13.f', n, 20, 'WorterbuchError variants')
 
 
-def rule_g(prog, rep):
-    rep.rule('C13.g', 'T2', 'in V0::{subscribe,psubscribe,subscribe_ls} the Ack send precedes the spawn of the forwarding '
+def rule_g(prog, rep, rid='C13.g'):
+    rep.rule(rid, 'T2', 'in V0::{subscribe,psubscribe,subscribe_ls} the Ack send precedes the spawn of the forwarding '
              'task on every path, the forwarder is spawned exactly once per Ok path that acknowledged')
     crate = prog.crate(WB)
     for h in ('subscribe', 'psubscribe', 'subscribe_ls'):
@@ -428,12 +428,12 @@ def rule_g(prog, rep):
                 if 'ack' not in tb or tb.index('ack') > tb.index('spawn') or tb.count('spawn') != 1 or 'err' in tb:
                     bad = t
         if bad is not None:
-            rep.violation('C13.g', f'V0::{h}', f.loc, f'forwarder spawned before / without the Ack: trace={list(bad)}',
-                          key=f'C13.g/V0::{h}/order', expected='ack before spawn')
+            rep.violation(rid, f'V0::{h}', f.loc, f'forwarder spawned before / without the Ack: trace={list(bad)}',
+                          key=f'{rid}/V0::{h}/order', expected='ack before spawn')
         elif nsp == 0:
-            rep.violation('C13.g', f'V0::{h}', f.loc, 'no path spawns a forwarding task', key=f'C13.g/V0::{h}/no-spawn')
+            rep.violation(rid, f'V0::{h}', f.loc, 'no path spawns a forwarding task', key=f'{rid}/V0::{h}/no-spawn')
         else:
-            rep.ok('C13.g', f'V0::{h}', f.loc, f'{nsp} paths spawn the forwarder, all after the Ack')
+            rep.ok(rid, f'V0::{h}', f.loc, f'{nsp} paths spawn the forwarder, all after the Ack')
 
 
 RULES = [('C13.a', rule_a), ('C13.b', rule_b), ('C13.c', rule_c), ('C13.d', rule_d), ('C13.e', rule_e), ('C13.f', rule_f),
